@@ -572,7 +572,7 @@ def r06_14(ctx: Ctx):
     """R06.14 only the deme itself writes its history: once inactive (or while asleep) nothing else can change it."""
     from .common import foreign_history_writes
 
-    return foreign_history_writes(ctx, "R06.14", "a deme's history changes without the deme having run a metaepoch (also when it is inactive or asleep)")
+    return foreign_history_writes(ctx, "R06.14", "a deme's history changes without the deme having run a metaepoch (also when it is inactive or asleep)", own_step_edits=False)
 
 
 def r06_15(ctx: Ctx):
